@@ -15,7 +15,7 @@ from vlib.core import Stage, fail
 ID = "C13"
 MANIFEST = {
     "category": "exploration",
-    "text": "Generated-input search against a reference model: deep AHBs (1-3 root groups, nesting depth <= 2/3, up to 40/120 nodes, segments with free-text and value-pool data elements, every node carrying a valid AHB expression of a documented form over a small key pool incl. several modal marks, packages, hints, format constraints) x content evaluation results incl. UNKNOWN x both soll flags. validate_deep_anwendungshandbuch (and validate_segment_level on drawn sub-trees) must return exactly the model's sequence of discriminators - each node once, in document order, nothing below a forbidden node - with the model's status for every group, segment and free-text element (incl. FILLED/EMPTY), or raise NotImplementedError exactly when the model meets an undetermined MUSS/prefix node.",
+    "text": "Generated-input search against a reference model: deep AHBs (1-3 root groups, nesting depth <= 2/3, up to 40/120 nodes, segments with free-text and value-pool data elements, every node carrying a valid AHB expression of a documented form over a small key pool incl. several modal marks, packages, hints, format constraints) x content evaluation results incl. UNKNOWN x both soll flags. validate_deep_anwendungshandbuch (and validate_segment_level on drawn sub-trees, and validate_segment_group / validate_segment below an explicitly given required / optional / forbidden parent status) must return exactly the model's sequence of discriminators - each node once, in document order, nothing below a forbidden node - with the model's status for every group, segment and free-text element (incl. FILLED/EMPTY), or raise NotImplementedError exactly when the model meets an undetermined MUSS/prefix node.",
     "note": "Trusted: the reference model in vlib/vtree.py (own status, parent table, traversal) and the reference evaluator. The status of value-pool elements is left to C17; here they only have to appear once at their place. Discriminators are unique paths.",
     "technique": "property-based testing against a pure reference model of the validation recursion (model-based oracle)",
 }
@@ -92,6 +92,22 @@ def check(case):
     built = vtree.build_group(node) if kind == "group" else vtree.build_segment(node)
     res = sut.call(level, built, soll)
     compare(sub_expected, res, tree, f"validate_segment_level({node['d']}, soll_is_required={soll})")
+    # the same sub-tree below an explicitly given parent status (the functions the recursion itself uses)
+    from ahbicht.models.validation_values import RequirementValidationValue
+    from ahbicht.validation.validation import validate_segment, validate_segment_group
+
+    parent = case.get("parent")
+    if parent is not None:
+        try:
+            sub_expected = vtree.model(tree, cer["rc"], soll, roots=[node], parent=parent)
+        except vtree.ModelNotImplemented:
+            sub_expected = "NIE"
+        vtree.setup(tree, cer)
+        func = validate_segment_group if kind == "group" else validate_segment
+        built = vtree.build_group(node) if kind == "group" else vtree.build_segment(node)
+        res = sut.call(func, built, getattr(RequirementValidationValue, parent), soll)
+        compare(sub_expected, res, tree, f"{func.__name__}({node['d']}, parent={parent}, soll_is_required={soll})")
+        info["parent"] = parent
     if expected != "NIE":
         _annotate(tree, cer, soll, dict(expected), info)
     return info
@@ -126,7 +142,7 @@ def _annotate(tree, cer, soll, statuses, info):
 
 
 def classify(case, info):
-    labels = ["soll=" + str(case["soll"])]
+    labels = ["soll=" + str(case["soll"]), "explicit-parent=" + str(info.get("parent"))]
     if info["nie"]:
         labels.append("expects-NotImplementedError")
     else:
@@ -145,7 +161,8 @@ def strategy(tier):
     @st.composite
     def build(draw):
         tree = draw(vtree.g_tree(max_nodes=bounds["max_nodes"], max_depth=bounds["max_depth"]))
-        return {"tree": tree, "cer": draw(vtree.g_cer()), "soll": draw(st.booleans()), "sub": draw(st.integers(0, 200))}
+        return {"tree": tree, "cer": draw(vtree.g_cer()), "soll": draw(st.booleans()), "sub": draw(st.integers(0, 200)),
+                "parent": draw(st.sampled_from([None, "IS_REQUIRED", "IS_OPTIONAL", "IS_OPTIONAL", "IS_FORBIDDEN"]))}
 
     return build()
 
